@@ -445,3 +445,8 @@ def run(db, ctx):
     from . import C04
     common.shared_rule(db, ctx, C04.lookahead_rules, 'R10.6', 'the look-ahead rows the kernels read for the last positions of either strand are what configure_wrap put there '
                        '(shared with R4.5 / R4.8): the mirror clause pairs the first positions of one strand with the last positions of the other', ['R4.5', 'R4.8'])
+    # commutation with the conversions holds because they act on each column independently, with the zero convention per column (seed C10-8: a
+    # `break` on the first zero-frequency column left the later columns — the complement of an earlier one — at zero)
+    from . import C09
+    common.shared_rule(db, ctx, C09.r92, 'R10.7', 'frequency -> weight -> score conversions treat every column on its own: one store per side of the f == 0 test, every column visited '
+                       '(shared with R9.2)', ['R9.2'])
